@@ -241,7 +241,8 @@ def propose (n : Nat) (s : St) (cid : Nat) (props : Option (List Nat)) (orc : Li
     | some p => if p < n then .ok (p, orc) else .error .indexError
   | none =>
     let members := (List.range n).filter (fun f => decide (s.arr.assign f = (cid : Nat)))
-    match orc with
+    if members.isEmpty then .error .valueError      -- `choice` of an empty array raises before any draw
+    else match orc with
     | [] => .error .oracleExhausted
     | o :: orc' =>
       match members[o % members.length]? with
